@@ -186,6 +186,12 @@ type qInterp struct {
 	depth     int
 	steps     int
 	undecided int
+	// dependency tracking (NTTSCHED, exact mode): hist[cell] is the sequence of the sets of cells (coefficients and
+	// table entries) each value stored into the cell was computed from
+	trackDeps  bool
+	hist       map[string][]string
+	histPos    map[string][]token.Pos
+	lastRetDep []string
 }
 
 type qFrame struct {
@@ -193,14 +199,16 @@ type qFrame struct {
 	n        map[types.Object]ival
 	bl       map[types.Object]int // 1 true, 2 false
 	sym      map[types.Object]string
-	base     map[types.Object]ival // offset of a view into the slice it views
-	leq      map[string]bool       // relational facts "A<=B" (expression texts) established by the enclosing conditions
+	base     map[types.Object]ival   // offset of a view into the slice it views
+	leq      map[string]bool         // relational facts "A<=B" (expression texts) established by the enclosing conditions
+	dep      map[types.Object]string // trackDeps: the cells a uint64 local was computed from (sorted, comma separated)
 	ret      []qitv
+	retDep   []string
 	returned bool
 }
 
 func newQFrame() *qFrame {
-	return &qFrame{u: map[types.Object]qitv{}, n: map[types.Object]ival{}, bl: map[types.Object]int{}, sym: map[types.Object]string{}, base: map[types.Object]ival{}, leq: map[string]bool{}}
+	return &qFrame{u: map[types.Object]qitv{}, n: map[types.Object]ival{}, bl: map[types.Object]int{}, sym: map[types.Object]string{}, base: map[types.Object]ival{}, leq: map[string]bool{}, dep: map[types.Object]string{}}
 }
 
 func (f *qFrame) clone() *qFrame {
@@ -223,22 +231,136 @@ func (f *qFrame) clone() *qFrame {
 	for k := range f.leq {
 		g.leq[k] = true
 	}
+	for k, v := range f.dep {
+		g.dep[k] = v
+	}
 	g.ret = append(g.ret, f.ret...)
+	g.retDep = append(g.retDep, f.retDep...)
 	g.returned = f.returned
 	return g
+}
+
+// depUnion merges two dependency sets (sorted, comma separated cell keys).
+func depUnion(a, b string) string {
+	if a == "" || a == b {
+		return b
+	}
+	if b == "" {
+		return a
+	}
+	set := map[string]bool{}
+	for _, k := range strings.Split(a, ",") {
+		set[k] = true
+	}
+	for _, k := range strings.Split(b, ",") {
+		set[k] = true
+	}
+	ks := make([]string, 0, len(set))
+	for k := range set {
+		ks = append(ks, k)
+	}
+	sort.Strings(ks)
+	return strings.Join(ks, ",")
+}
+
+func joinRetDeps(a, b []string) []string {
+	if a == nil {
+		return b
+	}
+	if b == nil {
+		return a
+	}
+	r := make([]string, len(a))
+	for i := range a {
+		r[i] = a[i]
+		if i < len(b) {
+			r[i] = depUnion(a[i], b[i])
+		}
+	}
+	return r
+}
+
+// depOf returns the cells the value of a uint64 expression is computed from: a coefficient or table entry read by
+// index is itself, a local is what it was assigned, an operation or a call is the union over its operands.
+func (q *qInterp) depOf(f *qFrame, x ast.Expr) string {
+	if !q.trackDeps {
+		return ""
+	}
+	x = unparen(x)
+	switch v := x.(type) {
+	case *ast.Ident:
+		o := q.info.Uses[v]
+		if o == nil {
+			o = q.info.Defs[v]
+		}
+		return f.dep[o]
+	case *ast.IndexExpr:
+		if isUint64(q.info.TypeOf(v)) {
+			if sym, key := q.cellKey(f, v); sym != "" {
+				return key
+			}
+		}
+		return ""
+	case *ast.BinaryExpr:
+		return depUnion(q.depOf(f, v.X), q.depOf(f, v.Y))
+	case *ast.UnaryExpr:
+		return q.depOf(f, v.X)
+	case *ast.CallExpr:
+		d := ""
+		for _, a := range v.Args {
+			if isUint64(q.info.TypeOf(a)) {
+				d = depUnion(d, q.depOf(f, a))
+			}
+		}
+		return d
+	}
+	return ""
+}
+
+// noteStore records the dependencies of a value that has just been assigned to a local or stored into a cell.
+func (q *qInterp) noteStore(f *qFrame, lhs ast.Expr, dep string, pos token.Pos) {
+	if !q.trackDeps {
+		return
+	}
+	switch l := unparen(lhs).(type) {
+	case *ast.Ident:
+		o := q.info.Defs[l]
+		if o == nil {
+			o = q.info.Uses[l]
+		}
+		if o != nil && isUint64(o.Type()) {
+			f.dep[o] = dep
+		}
+	case *ast.IndexExpr:
+		if isUint64(q.info.TypeOf(l)) {
+			if sym, key := q.cellKey(f, l); sym != "" {
+				q.hist[key] = append(q.hist[key], dep)
+				q.histPos[key] = append(q.histPos[key], pos)
+			}
+		}
+	}
 }
 
 // joinFrames merges the states of two branches into f.
 func joinFrames(a, b *qFrame) *qFrame {
 	if a.returned && !b.returned {
 		b.ret = joinRets(a.ret, b.ret)
+		b.retDep = joinRetDeps(a.retDep, b.retDep)
 		return b
 	}
 	if b.returned && !a.returned {
 		a.ret = joinRets(a.ret, b.ret)
+		a.retDep = joinRetDeps(a.retDep, b.retDep)
 		return a
 	}
 	r := newQFrame()
+	for k, v := range a.dep {
+		r.dep[k] = v
+	}
+	for k, v := range b.dep {
+		r.dep[k] = depUnion(r.dep[k], v)
+	}
+	r.retDep = joinRetDeps(a.retDep, b.retDep)
 	for k, v := range a.u {
 		if w, ok := b.u[k]; ok {
 			r.u[k] = v.join(w)
@@ -836,6 +958,15 @@ func (q *qInterp) call(f *qFrame, call *ast.CallExpr) []qitv {
 		}
 		return nil
 	}
+	if q.trackDeps {
+		d := q.depOf(f, call)
+		q.lastRetDep = nil
+		if sig, _ := fn.Type().(*types.Signature); sig != nil {
+			for i := 0; i < sig.Results().Len(); i++ {
+				q.lastRetDep = append(q.lastRetDep, d)
+			}
+		}
+	}
 	if out, ok := q.primSummary(fn); ok {
 		var args []qitv
 		for _, a := range call.Args {
@@ -919,6 +1050,9 @@ func (q *qInterp) call(f *qFrame, call *ast.CallExpr) []qitv {
 			switch {
 			case isUint64(t):
 				g.u[o] = q.eval(f, a)
+				if q.trackDeps {
+					g.dep[o] = q.depOf(f, a)
+				}
 			case isIntLike(t):
 				g.n[o] = q.evalInt(f, a)
 			default:
@@ -948,11 +1082,16 @@ func (q *qInterp) call(f *qFrame, call *ast.CallExpr) []qitv {
 			for _, nm := range fl.Names {
 				if isUint64(q.info.TypeOf(nm)) {
 					g.ret = append(g.ret, g.u[q.info.Defs[nm]])
+					g.retDep = append(g.retDep, g.dep[q.info.Defs[nm]])
 				} else {
 					g.ret = append(g.ret, qTop)
+					g.retDep = append(g.retDep, "")
 				}
 			}
 		}
+	}
+	if q.trackDeps {
+		q.lastRetDep = append([]string(nil), g.retDep...)
 	}
 	return g.ret
 }
@@ -1084,6 +1223,9 @@ func (q *qInterp) stmt(f *qFrame, st ast.Stmt) *qFrame {
 						case isUint64(o.Type()):
 							if i < len(vs.Values) {
 								f.u[o] = q.eval(f, vs.Values[i])
+								if q.trackDeps {
+									f.dep[o] = q.depOf(f, vs.Values[i])
+								}
 							} else {
 								f.u[o] = qconst(0)
 							}
@@ -1130,10 +1272,12 @@ func (q *qInterp) stmt(f *qFrame, st ast.Stmt) *qFrame {
 		return q.assignStmt(f, s)
 	case *ast.ReturnStmt:
 		var rs []qitv
+		var ds []string
 		if len(s.Results) == 1 {
 			if call, ok := unparen(s.Results[0]).(*ast.CallExpr); ok && !isUint64(q.info.TypeOf(call)) {
 				if _, isTuple := q.info.TypeOf(call).(*types.Tuple); isTuple {
 					rs = q.call(f, call)
+					ds = append(ds, q.lastRetDep...)
 				}
 			}
 		}
@@ -1141,8 +1285,10 @@ func (q *qInterp) stmt(f *qFrame, st ast.Stmt) *qFrame {
 			for _, r := range s.Results {
 				if isUint64(q.info.TypeOf(r)) {
 					rs = append(rs, q.eval(f, r))
+					ds = append(ds, q.depOf(f, r))
 				} else {
 					rs = append(rs, qTop)
+					ds = append(ds, "")
 				}
 			}
 		}
@@ -1151,6 +1297,12 @@ func (q *qInterp) stmt(f *qFrame, st ast.Stmt) *qFrame {
 		}
 		if rs != nil {
 			f.ret = joinRets(f.ret, rs)
+			if q.trackDeps {
+				for len(ds) < len(rs) {
+					ds = append(ds, "")
+				}
+				f.retDep = joinRetDeps(f.retDep, ds)
+			}
 		}
 		f.returned = true
 		return f
@@ -1380,12 +1532,18 @@ func (q *qInterp) assignStmt(f *qFrame, s *ast.AssignStmt) *qFrame {
 	if len(s.Rhs) == 1 && len(s.Lhs) > 1 {
 		if call, ok := unparen(s.Rhs[0]).(*ast.CallExpr); ok {
 			rs := q.call(f, call)
+			ds := append([]string(nil), q.lastRetDep...)
 			for i, l := range s.Lhs {
 				v := qTop
 				if i < len(rs) {
 					v = rs[i]
 				}
 				q.assign(f, l, v, ival{}, false, 0, s.Pos())
+				if i < len(ds) {
+					q.noteStore(f, l, ds[i], s.Pos())
+				} else {
+					q.noteStore(f, l, "", s.Pos())
+				}
 			}
 			return f
 		}
@@ -1401,7 +1559,14 @@ func (q *qInterp) assignStmt(f *qFrame, s *ast.AssignStmt) *qFrame {
 		vb  ival
 	}
 	vals := make([]val, len(s.Rhs))
+	deps := make([]string, len(s.Rhs))
 	for i, r := range s.Rhs {
+		if q.trackDeps && isUint64(q.info.TypeOf(r)) {
+			deps[i] = q.depOf(f, r)
+			if s.Tok != token.ASSIGN && s.Tok != token.DEFINE {
+				deps[i] = depUnion(deps[i], q.depOf(f, s.Lhs[i]))
+			}
+		}
 		t := q.info.TypeOf(s.Lhs[i])
 		if id, ok := unparen(s.Lhs[i]).(*ast.Ident); ok && t == nil {
 			if o := q.info.Defs[id]; o != nil {
@@ -1489,6 +1654,7 @@ func (q *qInterp) assignStmt(f *qFrame, s *ast.AssignStmt) *qFrame {
 			continue
 		}
 		q.assign(f, l, vals[i].u, vals[i].n, false, vals[i].b, s.Pos())
+		q.noteStore(f, l, deps[i], s.Pos())
 	}
 	return f
 }
